@@ -133,10 +133,18 @@ ALL_CAPACITY_NAMES = sorted(n for n in t.EzspConfigId.__members__ if is_capacity
 EZ16 = ClassSpec("bellows.ezsp.EZSP", fields=dict(EZ.fields), interference=["_callbacks"])
 
 
+BUF_ID = t.EzspConfigId.CONFIG_PACKET_BUFFER_COUNT
+
+
+def entries_for(items, name):
+    """the entries, among the ones about to be written, that set the configuration id of this name"""
+    return [e for e in items if e.config_id == t.EzspConfigId[name]]
+
+
 def _capacity_clause(name):
     return (
         f"own_default_is_grow_only[{name}]",
-        lambda ezsp_config, user_config: implies(name in ezsp_config and name not in user_config, ezsp_config[name].minimum),
+        lambda _items, user_config: implies(name not in user_config, all(e.minimum for e in entries_for(_items, name))),
     )
 
 
@@ -152,16 +160,18 @@ def _(c):
     # for an NCP newer than the newest known version, and none for a disabled setting without default
     c.loop(
         3,
-        # ---- the table of settings about to be written, when the write loop is reached -------------------
+        # the loop that writes the configuration values, wherever it stands in the function
+        where="setConfigurationValue",
+        # ---- the settings about to be written, in the order they will be written (`_items`: what the write loop
+        # ranges over when it is reached -- whatever the code calls it and however it builds it) ------------------
         at_entry=[
             # "writes a user-supplied value exactly as given"
             (
                 "user_value_entry",
-                lambda ezsp_config, user_config: all(
-                    name in ezsp_config
-                    and ezsp_config[name].config_id == t.EzspConfigId[name]
-                    and ezsp_config[name].value == val
-                    and not ezsp_config[name].minimum
+                lambda _items, user_config: all(
+                    len(entries_for(_items, name)) == 1
+                    and entries_for(_items, name)[0].value == val
+                    and not entries_for(_items, name)[0].minimum
                     for name, val in user_config.items()
                     if val is not None
                 ),
@@ -169,24 +179,27 @@ def _(c):
             # "writes nothing for a setting the user disabled"
             (
                 "disabled_not_written",
-                lambda ezsp_config, user_config: all(name not in ezsp_config for name, val in user_config.items() if val is None),
+                lambda _items, user_config: all(entries_for(_items, name) == [] for name, val in user_config.items() if val is None),
             ),
             # defaults the user did not touch are written as the default table says (value and grow-only marker)
             (
                 "defaults_kept",
-                lambda self, ezsp_config, config: all(
-                    ezsp_config[d.config_id.name] == dataclasses.replace(d, config_id=t.EzspConfigId[d.config_id.name])
+                lambda self, _items, config: all(
+                    [(e.value, e.minimum) for e in entries_for(_items, d.config_id.name)] == [(d.value, d.minimum)]
                     for d in DEFAULTS(self._ezsp_version)
                     if d.config_id.name not in config
                 ),
             ),
-            # "sets each setting at most once": one entry per name, names map to distinct ids
+            # "sets each setting at most once": one entry per configuration id
             (
                 "one_entry_per_setting",
-                lambda ezsp_config: all(e.config_id == t.EzspConfigId[name] for name, e in ezsp_config.items()),
+                lambda _items: all(len([x for x in _items if x.config_id == e.config_id]) == 1 for e in _items),
             ),
             # "sets the packet-buffer count after every other setting"
-            ("buffer_count_last", lambda ezsp_config: implies(BUF in ezsp_config, list(ezsp_config.keys())[-1] == BUF)),
+            (
+                "buffer_count_last",
+                lambda _items: implies(any(e.config_id == BUF_ID for e in _items), _items[-1].config_id == BUF_ID),
+            ),
         ]
         # "never lowers a capacity setting ... when applying its own defaults": whatever is not the user's
         # own value (default table or schema default) is grow-only for capacity settings
@@ -221,6 +234,7 @@ def _(c):
     )
     c.loop(
         2,
+        where="setValue",
         each=[
             (
                 "one_value_write",
